@@ -23,4 +23,10 @@ def alpha_instances(tier, ob="O1", prefix="alpha"):
     return out
 
 def instances(tier):
-    return alpha_instances(tier)
+    out = alpha_instances(tier)
+    out.append(Inst(ob="O3", name="sort_ignores_letters", harness="c03_sort.c", defs={"VK_NS": 2, "VK_QSORT_MAX": 2, "VK_EQNAMES": None},
+                    models=["models/vin.c", "models/msg.c", "models/qsort.c", "models/str.c"], native_srcs=["lib/src/tldevel.c", "lib/src/tlrng.c"],
+                    unwind=18, nb=6, ni=2, timeout=300, mem_gb=4, funcs=["sort_by_len_name"],
+                    bound="two records with arbitrary (possibly equal) lengths and 2-byte names; residue buffers invalid",
+                    desc="the canonical order never reads residue letters"))
+    return out
